@@ -1,10 +1,11 @@
-(* C02 for bracket-free operator expressions of any length: values, prefix, suffix and
-   binary operators, the implicit space list, whitespace anywhere between tokens.  The
-   loop of parse() and the spine machine run in lockstep over the token list. *)
+(* C02 for operator expressions of any length: values, prefix, suffix and binary
+   operators, the implicit space list, round brackets nested to any depth, whitespace
+   anywhere between tokens.  The loop of parse() and the spine machine run in lockstep
+   over the token list. *)
 From Coq Require Import List Arith Bool NArith Lia.
 From GV Require Import Base.Result Gen.TokenTypes Gen.Defs Model.Parser Spec.RefTable Spec.Pratt Spec.Chains
   Proofs.C02.Spine Proofs.C02.Denote Proofs.C02.Validate Proofs.C02.Invariant Proofs.C02.Steps
-  Proofs.C02.Struct Proofs.C02.StepsGen Proofs.C02.Chains.
+  Proofs.C02.Struct Proofs.C02.Unfold Proofs.C02.StepsGen Proofs.C02.Chains.
 Import ListNotations.
 
 Definition rel (after sp : bool) (st : pstate) (ms : spine_state) : Prop :=
@@ -17,27 +18,49 @@ Definition rel (after sp : bool) (st : pstate) (ms : spine_state) : Prop :=
 Definition prev_ok (after : bool) (prev : option tok_kind) : Prop :=
   match prev with None => after = false | Some k => ends_value_k k = after end.
 
-Lemma opexpr_nonempty r sp : opexpr_from r false sp = true -> r <> [].
+Lemma opexpr_nonempty r sp depth : opexpr_from r false sp depth = true -> r <> [].
 Proof. destruct r; [discriminate|discriminate]. Qed.
 
 Lemma space_is_whitespace t : ref_kind t = KSpace -> t = TT_Whitespace.
 Proof. destruct t; intros H; try discriminate H; reflexivity. Qed.
+Lemma open_is_startgroup t : ref_kind t = KOpen -> t = TT_StartGroup.
+Proof. destruct t; intros H; try discriminate H; reflexivity. Qed.
+Lemma close_is_endgroup t : ref_kind t = KClose -> t = TT_EndGroup.
+Proof. destruct t; intros H; try discriminate H; reflexivity. Qed.
 
-Lemma run_opexpr ntoks : forall toks i st after sp ms prev,
-  opexpr_from toks after sp = true -> rel after sp st ms -> prev_ok after prev ->
+Lemma no_groups_iff fs : group_ids fs = [] -> existsb is_fgroup fs = false.
+Proof. induction fs as [|f r IH]; [reflexivity|]. destruct f; simpl; auto. discriminate. Qed.
+
+Lemma close_group_exists : forall fs t, group_ids fs <> [] -> exists fs' t', close_group fs t = Some (fs', t').
+Proof.
+  induction fs as [|f r IH]; intros t H; [exfalso; apply H; reflexivity|].
+  destruct f as [i d k l|i d k|i k]; cbn [close_group group_ids] in *.
+  - apply IH. exact H.
+  - apply IH. exact H.
+  - eexists _, _. reflexivity.
+Qed.
+
+Definition ms_frames (ms : spine_state) : list frame := fst ms.
+
+Lemma run_opexpr ntoks : forall toks i st after sp depth ms prev,
+  opexpr_from toks after sp depth = true -> rel after sp st ms -> prev_ok after prev ->
+  length (group_ids (ms_frames ms)) = depth ->
   i + length toks = ntoks ->
   exists st' fs' t' its,
-    run_steps ntoks i toks st = Ok st' /\ gcompl st' fs' t' false /\
+    run_steps ntoks i toks st = Ok st' /\ gcompl st' fs' t' false /\ group_ids fs' = [] /\
     items_of toks i prev sp = Some its /\
     spine_run its (length (nodes st)) ms = Some (fs', Some t') /\
     Forall item_ranked its.
 Proof.
-  induction toks as [|tok r IH]; intros i st after sp ms prev Hop R Hprev Hi.
+  induction toks as [|tok r IH]; intros i st after sp depth ms prev Hop R Hprev Hdepth Hi.
   - (* end of the expression *)
-    cbn [opexpr_from] in Hop. apply andb_true_iff in Hop. destruct Hop as [-> Hsp].
-    apply negb_true_iff in Hsp. subst sp.
-    destruct ms as [fs [t|]]; simpl in R; [|contradiction].
-    exists st, fs, t, []. split; [reflexivity|]. split; [exact R|]. split; [reflexivity|]. split; [reflexivity|constructor].
+    cbn [opexpr_from] in Hop. apply andb_true_iff in Hop. destruct Hop as [Hop Hd0].
+    apply andb_true_iff in Hop. destruct Hop as [-> Hsp].
+    apply negb_true_iff in Hsp. subst sp. apply Nat.eqb_eq in Hd0. subst depth.
+    destruct ms as [fs [t|]]; simpl in R; [|contradiction]. cbn [ms_frames fst] in Hdepth.
+    exists st, fs, t, []. split; [reflexivity|]. split; [exact R|].
+    split; [destruct (group_ids fs); [reflexivity|discriminate Hdepth]|].
+    split; [reflexivity|]. split; [reflexivity|constructor].
   - cbn [opexpr_from] in Hop. cbn [length] in Hi. cbn [run_steps items_of].
     destruct (ref_kind tok) eqn:Ek; try discriminate Hop.
     + (* value *)
@@ -46,108 +69,163 @@ Proof.
       destruct after.
       * (* after whitespace after an operand: the implicit list *)
         cbn [negb orb] in Hallow. subst sp.
-        destruct ms as [fs [t|]]; simpl in R; [|contradiction].
+        destruct ms as [fs [t|]]; simpl in R; [|contradiction]. cbn [ms_frames fst] in Hdepth.
         destruct (gstep_value_list ntoks i tok st fs t R Hv) as (st1 & fs1 & t1 & Hpop & Hs & G1 & L1).
-        destruct (IH (S i) st1 true false (_, Some _) (Some KValue) Hop G1 eq_refl ltac:(lia))
-          as (st' & fs' & t' & its & Hr & G' & Hit & Hsr & Hrk).
-        exists st', fs', t'. eexists. split; [rewrite Hs; cbn [bind]; exact Hr|]. split; [exact G'|].
+        destruct (IH (S i) st1 true false depth (_, Some _) (Some KValue) Hop G1 eq_refl
+                     ltac:(cbn [ms_frames fst group_ids]; rewrite (pop_group_ids _ _ _ _ _ Hpop); exact Hdepth) ltac:(lia))
+          as (st' & fs' & t' & its & Hr & G' & Hng & Hit & Hsr & Hrk).
+        exists st', fs', t'. eexists. split; [rewrite Hs; cbn [bind]; exact Hr|]. split; [exact G'|]. split; [exact Hng|].
         destruct prev as [p|]; [|discriminate Hprev]. simpl in Hprev. rewrite Hprev. cbn [andb starts_value_k].
         rewrite Hit. split; [reflexivity|]. split.
-        -- cbn [app spine_run spine_step]. change (ref_rank D_List) with (Some 220%N). cbn iota.
-           rewrite Hpop. cbn [spine_run spine_step]. rewrite <- Hsr, L1. reflexivity.
+        -- cbn [app spine_run spine_step next_index]. change (ref_rank D_List) with (Some 220%N). cbn iota.
+           rewrite Hpop. cbn [spine_run spine_step next_index]. rewrite <- Hsr, L1. reflexivity.
         -- constructor; [simpl; exists 220%N; split; [reflexivity|reflexivity]|]. constructor; [exact I|exact Hrk].
       * (* where an operand is expected *)
-        destruct ms as [fs [t|]]; simpl in R; [contradiction|].
+        destruct ms as [fs [t|]]; simpl in R; [contradiction|]. cbn [ms_frames fst] in Hdepth.
         destruct (gstep_value ntoks i tok st fs sp R Hv) as (st1 & Hs & G1 & L1).
-        destruct (IH (S i) st1 true false (_, Some _) (Some KValue) Hop G1 eq_refl ltac:(lia))
-          as (st' & fs' & t' & its & Hr & G' & Hit & Hsr & Hrk).
-        exists st', fs', t'. eexists. split; [rewrite Hs; cbn [bind]; exact Hr|]. split; [exact G'|].
+        destruct (IH (S i) st1 true false depth (_, Some _) (Some KValue) Hop G1 eq_refl Hdepth ltac:(lia))
+          as (st' & fs' & t' & its & Hr & G' & Hng & Hit & Hsr & Hrk).
+        exists st', fs', t'. eexists. split; [rewrite Hs; cbn [bind]; exact Hr|]. split; [exact G'|]. split; [exact Hng|].
         assert (Hlead : match prev with
                         | Some p => if sp && ends_value_k p && starts_value_k KValue then [IBinary D_List None] else []
                         | None => [] end = []).
         { destruct prev as [p|]; [|reflexivity]. simpl in Hprev. rewrite Hprev. rewrite andb_false_r. reflexivity. }
         rewrite Hlead, Hit. split; [reflexivity|]. split.
-        -- cbn [app spine_run spine_step]. rewrite <- Hsr, L1. reflexivity.
+        -- cbn [app spine_run spine_step next_index]. rewrite <- Hsr, L1. reflexivity.
         -- constructor; [exact I|exact Hrk].
     + (* binary *)
       apply andb_true_iff in Hop. destruct Hop as [-> Hop].
       assert (Hb : is_binary_tok tok = true) by (unfold is_binary_tok; rewrite Ek; reflexivity).
-      destruct ms as [fs [t|]]; simpl in R; [|contradiction].
-      pose proof (opexpr_nonempty _ _ Hop) as Hne.
+      destruct ms as [fs [t|]]; simpl in R; [|contradiction]. cbn [ms_frames fst] in Hdepth.
+      pose proof (opexpr_nonempty _ _ _ Hop) as Hne.
       assert (Hi1 : i + 1 < ntoks) by (destruct r; [congruence|simpl in Hi; lia]).
       destruct (gstep_binary ntoks i tok st fs t sp R Hb Hi1) as (st1 & fs1 & t1 & Hpop & Hs & G1 & L1).
-      destruct (IH (S i) st1 false false (_, None) (Some KBinary) Hop G1 eq_refl ltac:(lia))
-        as (st' & fs' & t' & its & Hr & G' & Hit & Hsr & Hrk).
-      exists st', fs', t'. eexists. split; [rewrite Hs; cbn [bind]; exact Hr|]. split; [exact G'|].
+      destruct (IH (S i) st1 false false depth (_, None) (Some KBinary) Hop G1 eq_refl
+                   ltac:(cbn [ms_frames fst group_ids]; rewrite (pop_group_ids _ _ _ _ _ Hpop); exact Hdepth) ltac:(lia))
+        as (st' & fs' & t' & its & Hr & G' & Hng & Hit & Hsr & Hrk).
+      exists st', fs', t'. eexists. split; [rewrite Hs; cbn [bind]; exact Hr|]. split; [exact G'|]. split; [exact Hng|].
       assert (Hlead : match prev with
                       | Some p => if sp && ends_value_k p && starts_value_k KBinary then [IBinary D_List None] else []
                       | None => [] end = []).
       { destruct prev as [p|]; [|reflexivity]. cbn [starts_value_k]. rewrite andb_false_r. reflexivity. }
       rewrite Hlead, Hit. split; [reflexivity|].
       destruct (binary_tok_facts tok Hb) as (sec & my & p & BF). split.
-      * cbn [app spine_run spine_step]. rewrite (bf_rank _ _ _ _ BF), Hpop. rewrite <- Hsr, L1. reflexivity.
+      * cbn [app spine_run spine_step next_index]. rewrite (bf_rank _ _ _ _ BF), Hpop. rewrite <- Hsr, L1. reflexivity.
       * constructor; [|exact Hrk]. simpl. exists p. split; [exact (bf_rank _ _ _ _ BF)|exact (bf_inf _ _ _ _ BF)].
     + (* prefix *)
       apply andb_true_iff in Hop. destruct Hop as [Hallow Hop].
       assert (Hp : is_prefix_tok tok = true) by (unfold is_prefix_tok; rewrite Ek; reflexivity).
-      pose proof (opexpr_nonempty _ _ Hop) as Hne.
+      pose proof (opexpr_nonempty _ _ _ Hop) as Hne.
       assert (Hi1 : i + 1 < ntoks) by (destruct r; [congruence|simpl in Hi; lia]).
       destruct (prefix_tok_facts tok Hp) as (_ & _ & _ & _ & p & Hrank & Hinf).
       destruct after.
       * cbn [negb orb] in Hallow. subst sp.
-        destruct ms as [fs [t|]]; simpl in R; [|contradiction].
+        destruct ms as [fs [t|]]; simpl in R; [|contradiction]. cbn [ms_frames fst] in Hdepth.
         destruct (gstep_prefix_list ntoks i tok st fs t R Hp) as (st1 & fs1 & t1 & Hpop & Hs & G1 & L1).
-        destruct (IH (S i) st1 false false (_, None) (Some KPrefix) Hop G1 eq_refl ltac:(lia))
-          as (st' & fs' & t' & its & Hr & G' & Hit & Hsr & Hrk).
-        exists st', fs', t'. eexists. split; [rewrite Hs; cbn [bind]; exact Hr|]. split; [exact G'|].
+        destruct (IH (S i) st1 false false depth (_, None) (Some KPrefix) Hop G1 eq_refl
+                     ltac:(cbn [ms_frames fst group_ids]; rewrite (pop_group_ids _ _ _ _ _ Hpop); exact Hdepth) ltac:(lia))
+          as (st' & fs' & t' & its & Hr & G' & Hng & Hit & Hsr & Hrk).
+        exists st', fs', t'. eexists. split; [rewrite Hs; cbn [bind]; exact Hr|]. split; [exact G'|]. split; [exact Hng|].
         destruct prev as [pk|]; [|discriminate Hprev]. simpl in Hprev. rewrite Hprev. cbn [andb starts_value_k].
         rewrite Hit. split; [reflexivity|]. split.
-        -- cbn [app spine_run spine_step]. change (ref_rank D_List) with (Some 220%N). cbn iota.
-           rewrite Hpop. cbn [spine_run spine_step]. rewrite Hrank. rewrite <- Hsr, L1. reflexivity.
+        -- cbn [app spine_run spine_step next_index]. change (ref_rank D_List) with (Some 220%N). cbn iota.
+           rewrite Hpop. cbn [spine_run spine_step next_index]. rewrite Hrank. rewrite <- Hsr, L1. reflexivity.
         -- constructor; [simpl; exists 220%N; split; [reflexivity|reflexivity]|].
            constructor; [simpl; exists p; split; assumption|exact Hrk].
-      * destruct ms as [fs [t|]]; simpl in R; [contradiction|].
+      * destruct ms as [fs [t|]]; simpl in R; [contradiction|]. cbn [ms_frames fst] in Hdepth.
         destruct (gstep_prefix ntoks i tok st fs sp R Hp Hi1) as (st1 & Hs & G1 & L1).
-        destruct (IH (S i) st1 false false (_, None) (Some KPrefix) Hop G1 eq_refl ltac:(lia))
-          as (st' & fs' & t' & its & Hr & G' & Hit & Hsr & Hrk).
-        exists st', fs', t'. eexists. split; [rewrite Hs; cbn [bind]; exact Hr|]. split; [exact G'|].
+        destruct (IH (S i) st1 false false depth (_, None) (Some KPrefix) Hop G1 eq_refl Hdepth ltac:(lia))
+          as (st' & fs' & t' & its & Hr & G' & Hng & Hit & Hsr & Hrk).
+        exists st', fs', t'. eexists. split; [rewrite Hs; cbn [bind]; exact Hr|]. split; [exact G'|]. split; [exact Hng|].
         assert (Hlead : match prev with
                         | Some p => if sp && ends_value_k p && starts_value_k KPrefix then [IBinary D_List None] else []
                         | None => [] end = []).
         { destruct prev as [pk|]; [|reflexivity]. simpl in Hprev. rewrite Hprev. rewrite andb_false_r. reflexivity. }
         rewrite Hlead, Hit. split; [reflexivity|]. split.
-        -- cbn [app spine_run spine_step]. rewrite Hrank. rewrite <- Hsr, L1. reflexivity.
+        -- cbn [app spine_run spine_step next_index]. rewrite Hrank. rewrite <- Hsr, L1. reflexivity.
         -- constructor; [simpl; exists p; split; assumption|exact Hrk].
     + (* suffix *)
       apply andb_true_iff in Hop. destruct Hop as [-> Hop].
       assert (Hsf : is_suffix_tok tok = true) by (unfold is_suffix_tok; rewrite Ek; reflexivity).
-      destruct ms as [fs [t|]]; simpl in R; [|contradiction].
+      destruct ms as [fs [t|]]; simpl in R; [|contradiction]. cbn [ms_frames fst] in Hdepth.
       destruct (gstep_suffix ntoks i tok st fs t sp R Hsf) as (st1 & fs1 & t1 & Hpop & Hs & G1 & L1).
-      destruct (IH (S i) st1 true false (_, Some _) (Some KSuffix) Hop G1 eq_refl ltac:(lia))
-        as (st' & fs' & t' & its & Hr & G' & Hit & Hsr & Hrk).
-      exists st', fs', t'. eexists. split; [rewrite Hs; cbn [bind]; exact Hr|]. split; [exact G'|].
+      destruct (IH (S i) st1 true false depth (_, Some _) (Some KSuffix) Hop G1 eq_refl
+                   ltac:(cbn [ms_frames fst]; rewrite (pop_group_ids _ _ _ _ _ Hpop); exact Hdepth) ltac:(lia))
+        as (st' & fs' & t' & its & Hr & G' & Hng & Hit & Hsr & Hrk).
+      exists st', fs', t'. eexists. split; [rewrite Hs; cbn [bind]; exact Hr|]. split; [exact G'|]. split; [exact Hng|].
       assert (Hlead : match prev with
                       | Some p => if sp && ends_value_k p && starts_value_k KSuffix then [IBinary D_List None] else []
                       | None => [] end = []).
       { destruct prev as [p|]; [|reflexivity]. cbn [starts_value_k]. rewrite andb_false_r. reflexivity. }
       rewrite Hlead, Hit. split; [reflexivity|].
-      destruct (suffix_tok_facts tok Hsf) as (_ & _ & _ & my & p & OF). split.
-      * cbn [app spine_run spine_step]. rewrite (of_rank _ _ _ _ OF), Hpop. rewrite <- Hsr, L1. reflexivity.
+      destruct (suffix_tok_facts tok Hsf) as (_ & _ & _ & _ & my & p & OF). split.
+      * cbn [app spine_run spine_step next_index]. rewrite (of_rank _ _ _ _ OF), Hpop. rewrite <- Hsr, L1. reflexivity.
       * constructor; [|exact Hrk]. simpl. exists p. split; [exact (of_rank _ _ _ _ OF)|exact (of_inf _ _ _ _ OF)].
+    + (* opening bracket *)
+      apply andb_true_iff in Hop. destruct Hop as [Hallow Hop].
+      pose proof (open_is_startgroup tok Ek) as ->.
+      pose proof (opexpr_nonempty _ _ _ Hop) as Hne.
+      assert (Hi1 : i + 1 < ntoks) by (destruct r; [congruence|simpl in Hi; lia]).
+      destruct after.
+      * cbn [negb orb] in Hallow. subst sp.
+        destruct ms as [fs [t|]]; simpl in R; [|contradiction]. cbn [ms_frames fst] in Hdepth.
+        destruct (gstep_open_list ntoks i st fs t R) as (st1 & fs1 & t1 & Hpop & Hs & G1 & L1).
+        destruct (IH (S i) st1 false false (S depth) (_, None) (Some KOpen) Hop G1 eq_refl
+                     ltac:(cbn [ms_frames fst group_ids length]; rewrite (pop_group_ids _ _ _ _ _ Hpop), Hdepth; reflexivity) ltac:(lia))
+          as (st' & fs' & t' & its & Hr & G' & Hng & Hit & Hsr & Hrk).
+        exists st', fs', t'. eexists. split; [rewrite Hs; cbn [bind]; exact Hr|]. split; [exact G'|]. split; [exact Hng|].
+        destruct prev as [pk|]; [|discriminate Hprev]. simpl in Hprev. rewrite Hprev. cbn [andb starts_value_k].
+        rewrite Hit. split; [reflexivity|]. split.
+        -- cbn [app spine_run spine_step next_index]. change (ref_rank D_List) with (Some 220%N). cbn iota.
+           rewrite Hpop. cbn [spine_run spine_step next_index]. rewrite <- Hsr, L1. reflexivity.
+        -- constructor; [simpl; exists 220%N; split; [reflexivity|reflexivity]|].
+           constructor; [exact I|exact Hrk].
+      * destruct ms as [fs [t|]]; simpl in R; [contradiction|]. cbn [ms_frames fst] in Hdepth.
+        destruct (gstep_open ntoks i st fs sp R Hi1) as (st1 & Hs & G1 & L1).
+        destruct (IH (S i) st1 false false (S depth) (_, None) (Some KOpen) Hop G1 eq_refl
+                     ltac:(cbn [ms_frames fst group_ids length]; rewrite Hdepth; reflexivity) ltac:(lia))
+          as (st' & fs' & t' & its & Hr & G' & Hng & Hit & Hsr & Hrk).
+        exists st', fs', t'. eexists. split; [rewrite Hs; cbn [bind]; exact Hr|]. split; [exact G'|]. split; [exact Hng|].
+        assert (Hlead : match prev with
+                        | Some p => if sp && ends_value_k p && starts_value_k KOpen then [IBinary D_List None] else []
+                        | None => [] end = []).
+        { destruct prev as [pk|]; [|reflexivity]. simpl in Hprev. rewrite Hprev. rewrite andb_false_r. reflexivity. }
+        rewrite Hlead, Hit. split; [reflexivity|]. split.
+        -- cbn [app spine_run spine_step next_index]. rewrite <- Hsr, L1. reflexivity.
+        -- constructor; [exact I|exact Hrk].
+    + (* closing bracket *)
+      apply andb_true_iff in Hop. destruct Hop as [-> Hop].
+      pose proof (close_is_endgroup tok Ek) as ->.
+      destruct depth as [|d]; [cbv iota in Hop; discriminate Hop|cbv iota in Hop].
+      destruct ms as [fs [t|]]; simpl in R; [|contradiction]. cbn [ms_frames fst] in Hdepth.
+      destruct (close_group_exists fs t ltac:(intros E; rewrite E in Hdepth; discriminate Hdepth)) as (fs1 & t1 & Hcl).
+      destruct (gstep_close ntoks i st fs t sp fs1 t1 R Hcl) as (st1 & Hs & G1 & L1).
+      pose proof (close_group_ids _ _ _ _ Hcl) as Hids.
+      destruct (IH (S i) st1 true false d (fs1, Some t1) (Some KClose) Hop G1 eq_refl
+                   ltac:(cbn [ms_frames fst]; rewrite Hids in Hdepth; simpl in Hdepth; lia) ltac:(lia))
+        as (st' & fs' & t' & its & Hr & G' & Hng & Hit & Hsr & Hrk).
+      exists st', fs', t'. eexists. split; [rewrite Hs; cbn [bind]; exact Hr|]. split; [exact G'|]. split; [exact Hng|].
+      assert (Hlead : match prev with
+                      | Some p => if sp && ends_value_k p && starts_value_k KClose then [IBinary D_List None] else []
+                      | None => [] end = []).
+      { destruct prev as [p|]; [|reflexivity]. cbn [starts_value_k]. rewrite andb_false_r. reflexivity. }
+      rewrite Hlead, Hit. split; [reflexivity|]. split.
+      * cbn [app spine_run spine_step next_index]. rewrite Hcl. rewrite <- Hsr, L1. reflexivity.
+      * constructor; [exact I|exact Hrk].
     + (* whitespace *)
       pose proof (space_is_whitespace tok Ek) as ->.
       destruct after.
       * destruct ms as [fs [t|]]; simpl in R; [|contradiction].
         destruct (gstep_ws_compl ntoks i st fs t sp R) as (st1 & Hs & G1 & L1).
-        destruct (IH (S i) st1 true true (fs, Some t) prev Hop G1 Hprev ltac:(lia))
-          as (st' & fs' & t' & its & Hr & G' & Hit & Hsr & Hrk).
-        exists st', fs', t', its. split; [rewrite Hs; cbn [bind]; exact Hr|]. split; [exact G'|].
+        destruct (IH (S i) st1 true true depth (fs, Some t) prev Hop G1 Hprev Hdepth ltac:(lia))
+          as (st' & fs' & t' & its & Hr & G' & Hng & Hit & Hsr & Hrk).
+        exists st', fs', t', its. split; [rewrite Hs; cbn [bind]; exact Hr|]. split; [exact G'|]. split; [exact Hng|].
         split; [exact Hit|]. split; [rewrite <- L1; exact Hsr|exact Hrk].
       * destruct ms as [fs [t|]]; simpl in R; [contradiction|].
         destruct (gstep_ws_pend ntoks i st fs sp R) as (st1 & Hs & G1 & L1).
-        destruct (IH (S i) st1 false true (fs, None) prev Hop G1 Hprev ltac:(lia))
-          as (st' & fs' & t' & its & Hr & G' & Hit & Hsr & Hrk).
-        exists st', fs', t', its. split; [rewrite Hs; cbn [bind]; exact Hr|]. split; [exact G'|].
+        destruct (IH (S i) st1 false true depth (fs, None) prev Hop G1 Hprev Hdepth ltac:(lia))
+          as (st' & fs' & t' & its & Hr & G' & Hng & Hit & Hsr & Hrk).
+        exists st', fs', t', its. split; [rewrite Hs; cbn [bind]; exact Hr|]. split; [exact G'|]. split; [exact Hng|].
         split; [exact Hit|]. split; [rewrite <- L1; exact Hsr|exact Hrk].
 Qed.
 
@@ -155,20 +233,20 @@ Qed.
 Lemma trim_kind t : is_trim t = true -> ref_kind t = KSpace \/ ref_kind t = KOther.
 Proof. destruct t; intros H; try discriminate H; auto. Qed.
 
-Lemma opexpr_last : forall toks after sp, opexpr_from toks after sp = true ->
+Lemma opexpr_last : forall toks after sp depth, opexpr_from toks after sp depth = true ->
   toks = [] \/ exists r0 x, toks = r0 ++ [x] /\ is_trim x = false.
 Proof.
-  induction toks as [|t r IH]; intros after sp H; [left; reflexivity|right].
-  destruct r as [|t2 r2].
+  induction toks as [|t r IH]; intros after sp depth H; [left; reflexivity|right].
+  assert (Hr : exists a s d, opexpr_from r a s d = true).
+  { cbn [opexpr_from] in H. destruct (ref_kind t); try discriminate H;
+      try (apply andb_true_iff in H; destruct H as [_ H]); eauto.
+    destruct depth; [discriminate H|eauto]. }
+  destruct Hr as (a & s & d & Hr). destruct (IH a s d Hr) as [->|(r0 & x & E & Hx)].
   - exists [], t. split; [reflexivity|].
     destruct (is_trim t) eqn:E; [|reflexivity]. exfalso.
     cbn [opexpr_from] in H. destruct (trim_kind t E) as [K|K]; rewrite K in H; [|discriminate H].
     cbn [opexpr_from] in H. rewrite andb_false_r in H. discriminate H.
-  - assert (Hr : exists a s, opexpr_from (t2 :: r2) a s = true).
-    { cbn [opexpr_from] in H. destruct (ref_kind t); try discriminate H;
-        try (apply andb_true_iff in H; destruct H as [_ H]); eauto. }
-    destruct Hr as (a & s & Hr). destruct (IH a s Hr) as [E|(r0 & x & E & Hx)]; [discriminate E|].
-    exists (t :: r0), x. rewrite E. split; [reflexivity|exact Hx].
+  - exists (t :: r0), x. rewrite E. split; [reflexivity|exact Hx].
 Qed.
 
 Lemma trim_tokens_opexpr toks : operator_expression toks = true -> trim_tokens toks = (0, toks).
@@ -179,18 +257,20 @@ Proof.
   { destruct (is_trim v) eqn:E; [|reflexivity]. exfalso. unfold is_space_tok in Hv.
     cbn [opexpr_from] in Ht. destruct (trim_kind v E) as [K|K]; rewrite K in *; discriminate. }
   unfold trim_tokens. cbn [drop_while_trim]. rewrite Hv'. rewrite Nat.sub_diag. f_equal.
-  destruct (opexpr_last _ _ _ Ht) as [E|(r0 & x & E & Hx)]; [discriminate E|]. rewrite E.
+  destruct (opexpr_last _ _ _ _ Ht) as [E|(r0 & x & E & Hx)]; [discriminate E|]. rewrite E.
   rewrite rev_app_distr. cbn [rev app drop_while_trim]. rewrite Hx.
   change (x :: rev r0) with ([x] ++ rev r0). rewrite rev_app_distr, rev_involutive. reflexivity.
 Qed.
 
-(* what parse() returns once the loop has ended in a completed state *)
+(* what parse() returns once the loop has ended in a completed state with no open bracket *)
 Lemma parse_trimmed_gcompl toks st fs t :
   toks <> [] -> run_steps (length toks) 0 toks init_state = Ok st -> gcompl st fs t false ->
+  group_ids fs = [] ->
   parse_trimmed toks = Ok (nid (close fs t), nodes st) /\
   denotes (nodes st) None (close fs t) /\ ordered (close fs t).
 Proof.
-  intros Hne Hrun G. destruct G as [CS Hll Hcg Hgs Hnll [_ (Hcfl & Hsep & Hprev)]].
+  intros Hne Hrun G Hng. destruct G as [CS Hll [Hgs Hcg] Hnll [_ (Hcfl & Hsep & Hprev)]].
+  rewrite Hng in Hgs. cbn in Hgs.
   destruct (cstruct_tree _ _ _ CS) as (DT & OT & LoT & CovT).
   split; [|split; assumption].
   unfold parse_trimmed. destruct toks as [|t0 rest]; [congruence|]. rewrite Hrun. cbn [bind].
@@ -210,12 +290,12 @@ Proof.
   intros H. pose proof (trim_tokens_opexpr toks H) as Htrim.
   destruct toks as [|v rest]; [discriminate|]. unfold operator_expression in H.
   apply andb_true_iff in H. destruct H as [_ Hop].
-  destruct (run_opexpr (length (v :: rest)) (v :: rest) 0 init_state false false ([], None) None Hop
-              init_gpend eq_refl eq_refl) as (st' & fs' & t' & its & Hrun & G' & Hitems & Hsr & Hrk).
-  destruct (parse_trimmed_gcompl (v :: rest) st' fs' t' ltac:(discriminate) Hrun G') as (Hp & DT & OT).
+  destruct (run_opexpr (length (v :: rest)) (v :: rest) 0 init_state false false 0 ([], None) None Hop
+              init_gpend eq_refl eq_refl eq_refl) as (st' & fs' & t' & its & Hrun & G' & Hng & Hitems & Hsr & Hrk).
+  destruct (parse_trimmed_gcompl (v :: rest) st' fs' t' ltac:(discriminate) Hrun G' Hng) as (Hp & DT & OT).
   set (T := close fs' t') in *.
   assert (Hins : spine_insert its = Some T).
-  { unfold spine_insert. cbn [nodes init_state length] in Hsr. rewrite Hsr. reflexivity. }
+  { unfold spine_insert. cbn [nodes init_state length] in Hsr. rewrite Hsr, (no_groups_iff _ Hng). reflexivity. }
   unfold c02_agree, pratt. rewrite Hitems.
   rewrite (spine_insert_climb _ T _ Hrk Hins) by lia.
   unfold parse. rewrite Htrim. cbn [fst snd]. rewrite Hp.
@@ -225,8 +305,9 @@ Proof.
   apply rtree_eqb_refl.
 Qed.
 
-(* binary chains are operator expressions *)
-Lemma chain_tail_opexpr : forall n rest, length rest <= n -> chain_tail rest = true -> opexpr_from rest true false = true.
+(* ---- binary chains are operator expressions ---- *)
+Lemma chain_tail_opexpr : forall n rest, length rest <= n -> chain_tail rest = true ->
+  opexpr_from rest true false 0 = true.
 Proof.
   induction n as [|n IH]; intros rest Hn H.
   - destruct rest; [reflexivity|simpl in Hn; lia].
@@ -245,3 +326,6 @@ Proof.
   unfold is_value_tok in Hv. cbn [opexpr_from]. destruct (ref_kind v); try discriminate.
   cbn [negb andb orb]. apply (chain_tail_opexpr (length rest)); [lia|exact Ht].
 Qed.
+
+Theorem c02_binary_chains toks : binary_chain toks = true -> c02_agree toks = true.
+Proof. intros H. apply c02_operator_expressions, binary_chain_opexpr, H. Qed.
